@@ -5,10 +5,11 @@ From DL Require Import Base Lexer Parser.
 (* int(a**b): exact for b >= 0; for b < 0 Python computes a float and truncates it. *)
 Definition eval_pow (a b:Z) : res Z :=
   if 0 <=? b then Ok (a ^ b) else
+  (* both operands are converted to float first: OverflowError beyond the float range (boundary not modelled) *)
+  if (2^1000 <=? Z.abs a) || (2^1000 <=? Z.abs b) then Err Unmodelled else
   if a =? 0 then Err ZeroDivErr else
   if a =? 1 then Ok 1 else
-  if a =? -1 then Ok (if Z.even b then 1 else -1) else
-  if Z.abs a <? 2^1000 then Ok 0 else Err Unmodelled.
+  if a =? -1 then Ok (if Z.even b then 1 else -1) else Ok 0.
 Definition eval_bin (o:op) (a b:Z) : res Z :=
   match o with
   | ADD => Ok (a+b) | SUB => Ok (a-b) | MUL => Ok (a*b)
